@@ -756,6 +756,10 @@ void execute_arrow_assignment(StatementExecutor *executor,
         throw std::runtime_error("Invalid arrow access in assignment");
     }
 
+    // const T* : no store through the pointer (same test as (*p).m = v)
+    AssignmentHelpers::check_const_pointer_modification(
+        interpreter, arrow_access->left.get());
+
     // v0.11.0 Week 2 Day 3: ptr[index]->member = value パターン対応
     // 左側がポインタ配列アクセス (ptr[0])
     // の場合、ReturnExceptionで構造体が返される
